@@ -176,29 +176,41 @@ Print Assumptions fold_sound.
    instruction (Cond/Wasm.v, checked by K in Cond/Check.v), `and` / `or` as
    the n-ary nodes the IR holds.
 
-   emit_correct (partial: the part [frag1] of the fragment without for-loops -
-   it includes the n-ary `and` / `or`, `with`, and `any / all / N of <set>`
-   with N computed at run time, i.e. the calls of pat_range_match /
-   check_for_pattern_match over the runs of consecutive pattern ids; the
-   full statement is EmitProofs.emit_correct_statement): for every buffer,
-   match lists, rule verdicts and well-typed external variables, the code
-   emitted for a condition, started in any state whose filesize global holds
-   the buffer's size (the variable area may contain anything), terminates
-   normally with exactly the documented verdict on top of the stack. *)
-Theorem emit_correct_partial : forall data pm rules globals,
+   emit_correct: for every buffer, match lists, rule verdicts and well-typed
+   external variables, the code emitted for a condition of the fragment
+   (everything [tyof] types: arithmetic with the guards of << >> \ %,
+   comparisons, not / n-ary and / or / defined, uintN, $a [at|in], #a [in],
+   @a[i], !a[i], external variables, rule references, with, any / all / N of
+   <set>, and for <none|any|all|N> x in (lo..hi) with nested loops), started in
+   any state whose filesize global holds the buffer's size - the variable area
+   may contain ANYTHING, e.g. what other rules or earlier loops left in the
+   slots this condition is going to use - terminates normally with exactly the
+   documented verdict on top of the stack.
+   What the loop part rests on, all explicit in Cond/EmitProofs.v:
+   [for_range_ok] assumes the theorem for the bounds, the quantifier and the
+   body, and that the frame fits (sp + 7 <= MAX_VARS, part of [tyof]); the
+   invariant [Fr] says the slots n, i, the loop variable (and max_count, count
+   for <expr>) hold the iteration's values with their undefined-flags clear;
+   the body is compiled above the frame, so it keeps it ([keeps (sp + 7)]);
+   a nested loop takes the next 7 slots and re-initialises them on every outer
+   iteration; integer expressions (bounds, quantifier) keep every slot
+   ([int_all]).  An empty or inverted range and an undefined bound give false
+   for every quantifier; an undefined quantifier makes the loop undefined;
+   emit.rs has no iteration cap and neither has the model (Sem.v) any more. *)
+Theorem emit_correct : forall data pm rules globals,
   (forall k t, global_ty k = Some t -> types_as t (globals k)) ->
   forall e st,
-    frag1 e = true -> tyof [] 0 e = Some TBool -> start_ok data st ->
+    tyof [] 0 e = Some TBool -> start_ok data st ->
     exists st', bstep (host_spec data pm rules globals) (emit_condition e) st (ONormal st') /\
                 s_stack st' = V32 (b2z (holds (env_of data pm rules globals []) e)) :: s_stack st.
-Proof. exact EmitProofs.emit_correct_partial. Qed.
-Print Assumptions emit_correct_partial.
+Proof. exact EmitProofs.emit_correct. Qed.
+Print Assumptions emit_correct.
 
 (* the executable semantics computes the documented verdict for every
    sufficient amount of fuel *)
 Theorem run_condition_correct : forall data pm rules globals,
   (forall k t, global_ty k = Some t -> types_as t (globals k)) ->
-  forall e, frag1 e = true -> tyof [] 0 e = Some TBool ->
+  forall e, tyof [] 0 e = Some TBool ->
     exists N, forall fuel, (N <= fuel)%nat ->
       run_condition data pm rules globals fuel e = Some (holds (env_of data pm rules globals []) e).
 Proof. exact EmitProofs.run_condition_correct. Qed.
@@ -209,23 +221,31 @@ Print Assumptions run_condition_correct.
 Theorem emit_no_trap : forall data pm rules globals,
   (forall k t, global_ty k = Some t -> types_as t (globals k)) ->
   forall e st o,
-    frag1 e = true -> tyof [] 0 e = Some TBool -> start_ok data st ->
+    tyof [] 0 e = Some TBool -> start_ok data st ->
     bstep (host_spec data pm rules globals) (emit_condition e) st o -> exists st', o = ONormal st'.
 Proof. exact EmitProofs.emit_no_trap. Qed.
 Print Assumptions emit_no_trap.
 
 (* variables are written before they are read: the verdict does not depend on
-   what earlier rules left in the variable area *)
+   what earlier rules (or other loops using the same slots) left in the
+   variable area *)
 Theorem vars_written_before_read : forall data pm rules globals,
   (forall k t, global_ty k = Some t -> types_as t (globals k)) ->
   forall e st1 st2 o1 o2,
-    frag1 e = true -> tyof [] 0 e = Some TBool -> start_ok data st1 -> start_ok data st2 ->
+    tyof [] 0 e = Some TBool -> start_ok data st1 -> start_ok data st2 ->
     s_stack st1 = [] -> s_stack st2 = [] ->
     bstep (host_spec data pm rules globals) (emit_condition e) st1 o1 ->
     bstep (host_spec data pm rules globals) (emit_condition e) st2 o2 ->
     exists a b, o1 = ONormal a /\ o2 = ONormal b /\ s_stack a = s_stack b.
 Proof. exact EmitProofs.vars_written_before_read. Qed.
 Print Assumptions vars_written_before_read.
+
+(* one loop, compositionally: given the theorem for its parts *)
+Theorem for_range_correct : forall data pm rules globals qk q x lo hi body,
+    (qk = QExpr -> Ok data pm rules globals q) -> Ok data pm rules globals lo -> Ok data pm rules globals hi ->
+    Ok data pm rules globals body -> Ok data pm rules globals (EForRange qk q x lo hi body).
+Proof. exact EmitProofs.for_range_ok. Qed.
+Print Assumptions for_range_correct.
 
 (* the relational semantics used above and the executable one used by K agree *)
 Theorem machine_semantics_agree : forall host is st o,
